@@ -14,10 +14,10 @@ use std::collections::BTreeMap;
 use verif_core::Rng;
 use warp_core::materialization::{make_channel_id, ChannelId};
 use warp_core::{
-    compute_commit_hash_v2, make_head_id, make_intent_kind, make_node_id, make_strand_id,
+    compute_commit_hash_v2, make_edge_id, make_head_id, make_intent_kind, make_node_id, make_strand_id,
     make_type_id, make_warp_id, ActorId, AtomPayload, AttachmentKey, AttachmentSet,
     AttachmentValue, AuthorityBinding, AuthorityDomainId, AuthorityDomainRef, CausalAuthority,
-    CausalPosture, ConflictPolicy, EdgeSet, Engine, EngineBuilder, Footprint, ForkStrandRequest,
+    CausalPosture, ConflictPolicy, EdgeKey, EdgeRecord, EdgeSet, Engine, EngineBuilder, Footprint, ForkStrandRequest,
     GlobalTick, GraphStore, GraphView, Hash, HashTriplet, InboxPolicy, IngressEnvelope,
     IngressTarget, NodeId, NodeKey, NodeRecord, NodeSet, OriginId, PatternGraph, PlaybackMode,
     PortSet, PostureDerivation, ProvenanceEntry, ProvenanceService, ProvenanceStore,
@@ -158,6 +158,7 @@ pub struct CommitRec {
     pub live_state_root: Hash,
     /// State root / commit hash reported by the scheduler's `StepRecord`
     /// (or by the harness-built prefab entry).
+    #[allow(dead_code)]
     pub step_state_root: Hash,
     pub commit_hash: Hash,
     /// Recorded materialization outputs of that commit.
@@ -174,6 +175,7 @@ pub struct WlInfo {
     pub heads: Vec<WriterHeadKey>,
     /// `Some` for the child worldline of a live strand.
     pub strand: Option<StrandId>,
+    #[allow(dead_code)]
     pub parent: Option<usize>,
     /// Number of harness-built (prefab) provenance entries at the start.
     pub prefab: u64,
@@ -249,6 +251,17 @@ fn base_store(warp_label: Option<&str>, extra: u64) -> GraphStore {
             ty: make_type_id("verif-observe/acc"),
         },
     );
+    // The accumulator must be reachable from the root: the state root commits
+    // to the reachable state only, and every fold must move it.
+    store.insert_edge(
+        make_node_id("root"),
+        EdgeRecord {
+            id: make_edge_id("verif-observe/root-to-acc"),
+            from: make_node_id("root"),
+            to: acc_node(),
+            ty: make_type_id("verif-observe/link"),
+        },
+    );
     for i in 0..extra {
         store.insert_node(
             make_node_id(&format!("verif-observe/seed/{i}")),
@@ -265,6 +278,73 @@ pub fn live_state_root(state: &WorldlineState) -> Hash {
 }
 
 impl Sim {
+    /// Smallest runtime: the default worldline, one accept-all head, no
+    /// prefab history. Used by fixed minimal probes.
+    pub fn minimal() -> Self {
+        let mut engine = EngineBuilder::new(base_store(None, 0), make_node_id("root"))
+            .scheduler(SchedulerKind::Radix)
+            .workers(1)
+            .build();
+        engine.register_rule(fold_rule()).expect("register fold rule");
+        crate::observers::install(&mut engine);
+        let state =
+            WorldlineState::try_from(engine.state().clone()).expect("default worldline state");
+        let id = WorldlineId::from_bytes(*engine.root_key().warp_id.as_bytes());
+        let head = WriterHeadKey {
+            worldline_id: id,
+            head_id: make_head_id("default"),
+        };
+        let mut provenance = ProvenanceService::new();
+        provenance
+            .register_worldline(id, &state)
+            .expect("register provenance worldline");
+        let mut runtime = WorldlineRuntime::new();
+        runtime
+            .register_worldline(id, state)
+            .expect("register runtime worldline");
+        runtime
+            .register_writer_head(WriterHead::with_routing(
+                head,
+                PlaybackMode::Play,
+                InboxPolicy::AcceptAll,
+                None,
+                true,
+            ))
+            .expect("register default head");
+        Self {
+            engine,
+            runtime,
+            provenance,
+            wls: vec![WlInfo {
+                id,
+                label: "wl0".to_owned(),
+                heads: vec![head],
+                strand: None,
+                parent: None,
+                prefab: 0,
+            }],
+            log: BTreeMap::new(),
+            provenance_only: Vec::new(),
+            epoch: 0,
+            checkpoints: BTreeMap::new(),
+            intents_ingested: 0,
+            commits: 0,
+            next_child: 0,
+        }
+    }
+
+    /// Ingests one fixed intent at the default writer of worldline 0 and ticks.
+    pub fn commit_fixed(&mut self, payload: &[u8]) -> usize {
+        let id = self.wls[0].id;
+        let _ = self.runtime.ingest(IngressEnvelope::local_intent(
+            IngressTarget::DefaultWriter { worldline_id: id },
+            make_intent_kind("verif-observe/intent-a"),
+            payload.to_vec(),
+        ));
+        self.intents_ingested += 1;
+        self.tick()
+    }
+
     /// Builds the runtime: 1–3 worldlines, 1–2 heads each, possibly one
     /// worldline that starts with a harness-built ("prefab") history whose
     /// entries carry recorded truth outputs.
@@ -404,18 +484,36 @@ impl Sim {
                 warp_id: root.warp_id,
                 local_id: make_node_id(&format!("verif-observe/prefab/{i}/{}", rng.below(1000))),
             };
+            let edge_id = make_edge_id(&format!("verif-observe/prefab-edge/{i}"));
             let replay_patch = WarpTickPatchV1::new(
                 warp_core::POLICY_ID_NO_POLICY_V0,
                 warp_core::blake3_empty(),
                 TickCommitStatus::Committed,
                 vec![SlotId::Node(root)],
-                vec![SlotId::Node(node)],
-                vec![WarpOp::UpsertNode {
-                    node,
-                    record: NodeRecord {
-                        ty: make_type_id("verif-observe/prefab"),
+                vec![
+                    SlotId::Node(node),
+                    SlotId::Edge(EdgeKey {
+                        warp_id: root.warp_id,
+                        local_id: edge_id,
+                    }),
+                ],
+                vec![
+                    WarpOp::UpsertNode {
+                        node,
+                        record: NodeRecord {
+                            ty: make_type_id("verif-observe/prefab"),
+                        },
                     },
-                }],
+                    WarpOp::UpsertEdge {
+                        warp_id: root.warp_id,
+                        record: EdgeRecord {
+                            id: edge_id,
+                            from: root.local_id,
+                            to: node.local_id,
+                            ty: make_type_id("verif-observe/link"),
+                        },
+                    },
+                ],
             );
             let gt = GlobalTick::from_raw(i + 1);
             let patch = WorldlineTickPatchV1 {
@@ -455,7 +553,7 @@ impl Sim {
             for (ci, ch) in chans.iter().enumerate() {
                 if rng.chance(2, 3) {
                     let mut data = format!("truth:{i}:{ci}:").into_bytes();
-                    data.extend_from_slice(&rng.bytes(rng.range_usize(0, 24)));
+                    data.extend_from_slice(&{ let n = rng.range_usize(0, 24); rng.bytes(n) });
                     outputs.push((*ch, data));
                 }
             }
@@ -520,7 +618,7 @@ impl Sim {
                 }
             };
             let mut payload = vec![rng.below(256) as u8];
-            payload.extend_from_slice(&rng.bytes(rng.range_usize(1, 12)));
+            payload.extend_from_slice(&{ let n = rng.range_usize(1, 12); rng.bytes(n) });
             let kind = make_intent_kind(*rng.pick(&[
                 "verif-observe/intent-a",
                 "verif-observe/intent-b",
